@@ -39,7 +39,13 @@ MANIFEST = dict(
          "copied value when no other store can reach the region (shown by adding up that store's loop conditions and guards), any other "
          "read of self-written memory gives no verdict; the bin cursor may be `last bin` (from -1) or `last bin + 1` (from 0); an "
          "unfiltered sort index with a limit given is accepted only on a path whose conditions say limit <= smallest / largest <= limit; "
-         "instance attributes that cache a function of the data (class invariant over every store) are read as that function.",
+         "instance attributes that cache a function of the data (class invariant over every store) are read as that function.  "
+         "Per-iteration rules on each engine by itself (paths through one iteration of every top-level loop, loop carried variables as symbols, "
+         "break / return / goto kept): no way out of the pass over the sort index that holds the index store is taken under a condition on the data (the "
+         "remaining positions would never be stored), and the index of the increment is computed from the datum of that iteration or is a remembered bin "
+         "that every path keeps paired with the remembered datum it is reused for.  An unfiltered sort index with a limit given is a violation when no "
+         "condition of the path reads that limit's value.  When the effect comparison cannot express an engine (break, None-valued state) it gives no "
+         "verdict and the other rules still run.",
     note="Not decided: counts for particular data, floating-point rounding at bin edges. Assumes LP64 (argsort/arange give int64). "
          "Trusted: clang AST, sympy normaliser, numpy argsort(kind='stable').",
     technique="static analysis: cross-language sibling comparison of guarded-effect normal forms (clang AST vs Python ast), path-sensitive value flow over the wrapper functions, format/ABI agreement",
@@ -2212,7 +2218,7 @@ def pass_rules(chk, tag, ir, roles, where_of):
             vs.append(False)
             before = p is not None and not any(ev[0] == P5 and _rd_of(ev[2], "P2") and not ev[4] for ev in p.events)
             why.append((line, "the loop over the sort index is left by `%s` (line %s) when %s -- a condition on the data, not on the position: the positions after that one are never visited%s, so their "
-                        "sort indices are not stored at rev[i + nbin + 1] (the index area keeps its zeros there) although the data lie within the limits"
+                        "sort indices are not stored at rev[i + nbin + 1] (that part of the index area is never written) although the data lie within the limits"
                         % (kind, line, _cond_text(on_data), " and the store for the current position is skipped as well" if before else "")))
     v = _verdict(vs) if vs else None
     chk.ob("R05.2", "engine::%s::pass-visits-every-sorted-datum" % tag, v, where_of(why[0][0] if why and v is False else None),
@@ -2273,8 +2279,8 @@ def _reused_bin(red, L, V, conds):
             verdicts.append(True)
         elif _datum_atoms(w1) == [w1] and v1 == V and not any(V in _heads(c) for c in atoms) and not p.other:
             return False, ("the increment reuses the remembered bin `%s` when the datum equals the remembered datum `%s`, but on the path of an iteration where %s `%s` is set to the "
-                           "current datum while `%s` keeps the bin of an earlier datum (it is updated only when a datum is counted): a datum that is not in a valid bin "
-                           "is rejected at its first occurrence only, every later equal datum is counted in the bin of the last counted one"
+                           "current datum while `%s` is not assigned and keeps the bin of an earlier datum: the next datum equal to this one is counted in that earlier bin instead of its own "
+                           "(a datum outside the valid bins is rejected at its first occurrence only)"
                            % (v, w, _cond_text(atoms), w, v))
         else:
             verdicts.append(None)
